@@ -202,6 +202,11 @@ func (cs *ContractSet) parseFile(path, pkg string) error {
 		case "ghost":
 			// ghost var name type | ghost map name keytype valtype
 			fs := strings.Fields(rest)
+			if len(fs) >= 3 {
+				if _, dup := cs.Ghosts[fs[1]]; dup {
+					return fail("ghost %s is already declared; ghost state shares one namespace", fs[1])
+				}
+			}
 			if len(fs) == 3 && fs[0] == "var" {
 				cs.Ghosts[fs[1]] = &GhostVar{Name: fs[1], Type: fs[2], Pkg: pkg}
 			} else if len(fs) >= 4 && fs[0] == "map" {
@@ -216,6 +221,9 @@ func (cs *ContractSet) parseFile(path, pkg string) error {
 				return fail("%v", err)
 			}
 			sf.Pkg = pkg
+			if prev, dup := cs.Specs[sf.Name]; dup {
+				return fail("spec func %s is already declared (package %s); spec functions share one namespace", sf.Name, prev.Pkg)
+			}
 			cs.Specs[sf.Name] = sf
 			cur, curLoop = nil, nil
 		case "axiom":
